@@ -549,6 +549,65 @@ def _fine_account(acc, cfg, gran, start, sw, views, vs, b):
         )
 
 
+def rebind_after_run(acc):
+    """'bound values reach the node as the very object that was bound' along derivation histories of a graph object that has already
+    RUN: re-bind to another object, unbind and supply, select / with_entrypoint (binding kept) - flat and nested, both runners, on
+    the same and on a fresh runner."""
+    other, supplied = ["BOUND-OTHER"], ["SUPPLIED"]
+    for kind in ("sync", "async"):
+        for gname in ("flat", "nested"):
+            for fresh_runner in (False, True):
+                env = Env(kinds=(kind,), names={gname})
+                g = env.g[(gname, kind)]
+                xn, xo = XNAME[gname], XOBJ[gname]
+                seen = []
+                orig_hook = env.h.body_hook
+
+                def hook(c, phase, orig_hook=orig_hook, seen=seen):
+                    orig_hook(c, phase)
+                    if "cfg" in c.args:
+                        seen.append(c.args["cfg"])
+
+                env.h.body_hook = hook
+
+                def run(graph, extra=None, slot="A"):
+                    from ..vloop import VLoop
+
+                    del seen[:]
+                    runner = env.runners[(slot, kind)]
+                    vals = {xn: xo, **(extra or {})}
+                    with seams.use(env.h):
+                        if kind == "sync":
+                            return runner.run(graph, vals, on_internal_override="ignore")
+                        loop = VLoop()
+                        env.h.loop = loop
+                        try:
+                            return loop.run_main(runner.run(graph, vals, on_internal_override="ignore"), _Z())
+                        finally:
+                            loop.close()
+
+                steps = [
+                    ("the graph as bound", lambda: g, None, BOUND),
+                    ("g.bind(cfg=other) derived after g ran", lambda: g.bind(cfg=other), None, other),
+                    ("g.unbind('cfg') derived after g ran, cfg supplied", lambda: g.unbind("cfg"), {"cfg": supplied}, supplied),
+                    ("g.select(...) derived after g ran", lambda: g.select(*list(g.outputs)[-1:]), None, BOUND),
+                    ("g.bind(cfg=other).bind(cfg=BOUND)", lambda: g.bind(cfg=other).bind(cfg=BOUND), None, BOUND),
+                    ("the graph as bound, again", lambda: g, None, BOUND),
+                ]
+                w = {"rebind_after_run": True}
+                for label, derive, extra, expect in steps:
+                    try:
+                        r = run(derive(), extra, "B" if fresh_runner and label != steps[0][0] else "A")
+                    except Exception as e:  # noqa: BLE001
+                        acc.violation({"symptom": "run-raised", "mode": "rebind-after-run"}, w, f"{gname}/{kind}: {label}: {type(e).__name__}: {str(e)[:150]}")
+                        break
+                    acc.evaluations += 1
+                    acc.key(("rebind-after-run", kind, gname, fresh_runner, label))
+                    if r.status.value != "completed" or not seen or any(o is not expect for o in seen):
+                        acc.violation({"symptom": "bound-object-copied" if seen and all(o == expect for o in seen) else "stale-or-wrong-bound-object", "mode": "rebind-after-run"}, w, f"{gname}/{kind} ({'fresh' if fresh_runner else 'same'} runner): {label}: status {r.status.value}, the node received {[jsonable(o) for o in seen]} - expected the very object {jsonable(expect)}")
+                        break
+
+
 def mapping_node_identity(acc):
     """Bound values reach the node function as the very object that was bound - also when the graph is the inner graph of
     a MAPPING node (depth 1 and 2), for every clone setting, every item and repeated runs, both runners; and runner.map."""
@@ -654,6 +713,8 @@ def run_shard(shard):
     elif part == "async":
         if i == 0:
             mapping_node_identity(acc)
+        if i == 1:
+            rebind_after_run(acc)
         acc.key(("async-pair", PAIRS[i]))
         async_pair(acc, PAIRS[i], tier)
     elif part == "fine":
@@ -681,7 +742,9 @@ def coverage_extra(acc, tier, seed):
 
 def replay(rep):
     acc = Acc()
-    if rep.get("mapping_node_identity"):
+    if rep.get("rebind_after_run"):
+        rebind_after_run(acc)
+    elif rep.get("mapping_node_identity"):
         mapping_node_identity(acc)
     elif rep["kind"] == "history":
         check_history(acc, [tuple(o) for o in rep["history"]])
